@@ -6,6 +6,7 @@ Local Open Scope N_scope.
 
 Record case12 := {
   c_self : id;
+  c_may_reject : bool;                    (* small bucket size: the table may refuse a peer (bucket full) *)
   c_steps : list (list rtev * list id);   (* events of one action; routing table after it *)
   i_panic : bool;
   i_refresh_answered_once : bool }.
@@ -19,12 +20,15 @@ Fixpoint list_eqb (a b : list N) : bool :=
 Definition admit_all (_ : list id) (_ : id) : bool := true.   (* K = 20, at most 10 peers: buckets never fill *)
 
 (* model agreement: the table after each action *)
-Fixpoint agrees_from (s : rtstate) (steps : list (list rtev * list id)) : bool :=
+Fixpoint agrees_from (may_reject : bool) (s : rtstate) (steps : list (list rtev * list id)) : bool :=
   match steps with
   | [] => true
   | (evs, snapshot) :: rest =>
       let s' := rt_run admit_all s evs in
-      list_eqb (sort_N (rt s')) (sort_N snapshot) && agrees_from s' rest
+      (if may_reject
+       then forallb (fun p => memN p (rt s')) snapshot      (* the table is a subset of what an all-admitting table holds *)
+       else list_eqb (sort_N (rt s')) (sort_N snapshot))
+      && agrees_from may_reject s' rest
   end.
 
 (* the property on the trace: a member of a snapshot proved itself earlier
@@ -58,24 +62,25 @@ Definition ev_peer (e : rtev) : id :=
 (* members proved themselves and were not evicted since; conversely (the table
    never rejects in these runs) a peer that answered and was not evicted since
    is still a member: failures caused by cancellation evict nobody *)
-Fixpoint prop_from (hist : list rtev) (self : id) (steps : list (list rtev * list id)) : bool :=
+Fixpoint prop_from (may_reject : bool) (hist : list rtev) (self : id) (steps : list (list rtev * list id)) : bool :=
   match steps with
   | [] => true
   | (evs, snapshot) :: rest =>
       let h := hist ++ evs in
       forallb (fun p => negb (N.eqb p self) &&
                         match last_verdict (rev h) p with Some true => true | _ => false end) snapshot
-      && forallb (fun e => match last_verdict (rev h) (ev_peer e) with
-                           | Some true => memN (ev_peer e) snapshot
-                           | _ => true
-                           end) h
-      && prop_from h self rest
+      && (may_reject ||
+          forallb (fun e => match last_verdict (rev h) (ev_peer e) with
+                            | Some true => memN (ev_peer e) snapshot
+                            | _ => true
+                            end) h)
+      && prop_from may_reject h self rest
   end.
 
 Definition c12_prop_ok (c : case12) : bool :=
-  negb (i_panic c) && i_refresh_answered_once c && prop_from [] (c_self c) (c_steps c).
+  negb (i_panic c) && i_refresh_answered_once c && prop_from (c_may_reject c) [] (c_self c) (c_steps c).
 Definition c12_agrees (c : case12) : bool :=
-  agrees_from {| rt := []; probing := []; capacity := 256 |} (c_steps c).
+  agrees_from (c_may_reject c) {| rt := []; probing := []; capacity := 256 |} (c_steps c).
 
 Definition verdict (c : case12) : nat := if negb (c12_prop_ok c) then 2 else if c12_agrees c then 0 else 1.
 Fixpoint verdicts_from (i : nat) (cs : list case12) : list (nat * nat) :=
